@@ -531,6 +531,21 @@ Proof.
       repeat (destruct Hh as [Hh|Hh]; [subst h; first [exfalso; apply Hk; reflexivity | discriminate Hl]|]); contradiction.
 Qed.
 
+(* the two facts of sortTarHeaders that [Model/InstallDb.v] rests on, read off the
+   source by shape (goextract: in the loop over the header list, directly in its
+   body, `m[name] = <the header>` and `c[dir] = append(c[dir], name)`): the header
+   kept for a name is the LAST one, and a name is listed under its directory once
+   per header. Keeping the first header, or listing a name once, flips a switch
+   and this no longer holds. *)
+Theorem c07_db_writer_is_source :
+  (forall pr q, last_at pr q =
+     find (fun h => path_eqb (h_path h) q) (if c07_sort_last_header_of_a_name_kept then rev pr else pr)) /\
+  (forall pr q, count_path pr q =
+     let n := List.length (filter (fun h => path_eqb (h_path h) q) pr) in
+     if c07_sort_child_listed_per_header then n else Nat.min 1 n).
+Proof. exact (conj (fun pr q => eq_refl) (fun pr q => eq_refl)). Qed.
+Print Assumptions c07_db_writer_is_source.
+
 (* ... and when a package does, the record is the last header's whatever the
    clash decided: the same bytes 0755 then 0700 leave the first copy (0755) in
    the tree and 0700 (twice) in the database, on every backend (C07-F16) *)
